@@ -383,7 +383,32 @@ func mustCrossDepth(site ssa.Instruction, pred EdgePred, depth int) (guarded boo
 		}
 	}
 	r := reach(fn.Blocks[0], func(e Edge) bool { return sel[e] })
-	return !r[site.Block()], len(sel)
+	if !r[site.Block()] {
+		return true, len(sel)
+	}
+	// not guarded inside this function: if it is an extracted helper, the guard may sit at its call
+	// sites — every path to the site enters through one of them
+	if depth > 0 && isUnexportedHelper(fn) {
+		sites := staticCallersOf(fn)
+		if len(sites) > 0 {
+			total := len(sel)
+			all := true
+			saved := activeSubst
+			activeSubst = nil // the callers' own values, not this helper's bindings
+			for _, cs := range sites {
+				g, n := mustCrossDepth(cs, pred, depth-1)
+				total += n
+				if !(g && n > 0) {
+					all = false
+				}
+			}
+			activeSubst = saved
+			if all {
+				return true, total
+			}
+		}
+	}
+	return false, len(sel)
 }
 
 // ReachableFromEdge: is the block of site reachable from the target of edge e?
